@@ -42,13 +42,18 @@ func RunConc(line string, mk func(cfg string, nthreads int) Obj) string {
 	for _, p := range strings.Split(parts[1], ";") {
 		progs = append(progs, strings.Fields(p))
 	}
+	// schedule entries: `<tid>` = one step; `<tid>*` = macro step (search only, not replayed by the Lean
+	// models): step thread tid until it is parked at a label of the object's boundary set (or done)
 	var sched []int
+	var star []bool
 	for _, s := range strings.Fields(parts[2]) {
-		n, err := strconv.Atoi(s)
+		st := strings.HasSuffix(s, "*")
+		n, err := strconv.Atoi(strings.TrimSuffix(s, "*"))
 		if err != nil {
 			return "bad-case"
 		}
 		sched = append(sched, n)
+		star = append(star, st)
 	}
 	s := vsched.New()
 	obj := mk(cfg, len(progs))
@@ -77,12 +82,21 @@ func RunConc(line string, mk func(cfg string, nthreads int) Obj) string {
 			stuck = true
 		}
 	}
-	for _, tid := range sched {
+	boundary := func(string) bool { return true }
+	if b, ok := obj.(interface{ Boundary(label string) bool }); ok {
+		boundary = b.Boundary
+	}
+	for i, tid := range sched {
 		if tid < 0 || tid >= s.N() {
 			trace = append(trace, fmt.Sprintf("%d:!nothread", tid))
 			continue
 		}
 		step(tid)
+		if star[i] {
+			for k := 0; k < 200 && !s.Done(tid) && !stuck && !boundary(s.At(tid)); k++ {
+				step(tid)
+			}
+		}
 	}
 	n := 0
 	for !s.AllDone() && n < FinishCap && !stuck {
